@@ -43,6 +43,9 @@ OBLIGATIONS = [
     "VgiVerif.C08.C08_init_fail",
     "VgiVerif.C08.emittedProducer_eq_sem",
     "VgiVerif.C08.failing_call_flush_recognised",
+    "VgiVerif.C08.processStep_eq_engine",
+    "VgiVerif.C08.processExchangeStep_eq_engine",
+    "VgiVerif.C08.C08_engine",
     "VgiVerif.C08.C08_robust",
     "VgiVerif.C08.C08_robust_handling",
     "VgiVerif.C08.C08_rpcError_only_exception",
